@@ -227,7 +227,19 @@ def nested_obs():
     return (m2.volume == w_vol and m2.balance == 0 and m2.dc_offset == 0 and m1.bpm == w_bpm and m1.project.modules[1].volume == iv
             and type(m1).__name__ == "MetaModule" and len(p.modules) == 3)
 """
-    return [Ob("nested.lenient", build([R("w_vol", 0, 2**31 - 1), R("w_bpm", 0, 2**31 - 1), R("iv", 0, 2**31 - 1)], body, setup=SETUP),
+    body2 = """
+    inner = RF.enc_project(modules=[RF.enc_output(), RF.enc_module("Amplifier", flags=0x51, in_project=True, cvals=[200, 128 + bal])])
+    mapping = RF.u16(1) + RF.u16(1) + RF.u16(1) + RF.u16(0) + [0] * (4 * 94)       # user #1 -> module 1 controller index 1 (balance), user #2 -> volume
+    opts = [2, 0, 0, 0, 0, 0, 0, 0]                                                      # 2 user-defined controllers (options byte 0)
+    mm = RF.enc_module("MetaModule", flags=0x8051, cvals=[256, 1, 0, 125, 6, w1, w2], chunks=[(0, inner), (1, mapping), (2, opts)], chnk=104)
+    m_ = load_bytes(RF.cat([RF.ck(b"SSYN"), RF.ck(b"VERS", [1, 2, 1, 2])] + mm + [RF.ck(b"SEND")])).module
+    return (m_.user_defined_controllers == 2 and [c.attached(m_) for c in m_.user_defined][:3] == [True, True, False]
+            and m_.user_defined_1 == w1 - 128 and m_.user_defined_2 == w2 and m_.project.modules[1].balance == bal)
+"""
+    extra = [Ob("nested.userdefined", build([R("w1", 0, 256), R("w2", 0, 1024), R("bal", -128, 128)], body2, setup=SETUP),
+                "a reference-encoded MetaModule with two user-defined controllers and no label chunks: the controllers are attached and their stored values decode with the mapped controller's offset convention",
+                group="nested", shape="REF-ENC synth(MetaModule[Output, Amplifier]); mapping table + options record, no CHNM >= 8", symbolic="two stored words, an embedded value", timeout=400)]
+    return extra + [Ob("nested.lenient", build([R("w_vol", 0, 2**31 - 1), R("w_bpm", 0, 2**31 - 1), R("iv", 0, 2**31 - 1)], body, setup=SETUP),
                "a file with a MetaModule and stored controller values outside the known ranges (in the embedded project, on the MetaModule itself and on a later module) is decoded value by value",
                group="nested", shape="REF-ENC project [Output, MetaModule[Output, Amplifier], Amplifier]", symbolic="three stored controller words over 0..2^31-1 (in and out of range)", timeout=400)]
 
